@@ -67,7 +67,8 @@ void run_case(ByteSource& s, CaseInfo& ci) {
   ci.sample = fmt("d=%d H(%s)=%s t=%.17g A=%s sub=%u", d, hc.c_str(), vec_str(h).c_str(), t, vec_str(a).c_str(), sub);
   SU_vector H = make_vec(h, d), A = make_vec(a, d);
   Mat MH = toM(h, d), MA = toM(a, d);
-  std::vector<ld> E(d); for (int i = 0; i < d; i++) E[i] = MH.a[i][i].real();
+  // level differences do not involve the identity component: read them off the traceless part
+  std::vector<ld> E(d); { std::vector<double> h0 = h; h0[0] = 0; Mat M0 = toM(h0, d); for (int i = 0; i < d; i++) E[i] = M0.a[i][i].real(); }
   ld hdiag = 0; for (int k = 1; k < d; k++) hdiag += fabsl((ld)h[d * k + k]);
   ld amax = max_abs(a);
   auto tol_for = [&](ld tt) { return (64 * fabsl(tt) * hdiag + 16) * EPS * amax; };
